@@ -927,10 +927,21 @@ func (p *prog) buildComplete(u *upload) completeCase {
 		cc.list = append(cc.list[:i+1], append([]s3c.Part{dup}, cc.list[i+1:]...)...)
 	case x < 90:
 		cc.variant = "empty"
-	case x < 94:
+	case x < 92:
 		cc.variant, cc.list = "quoted-etags", u.bestValid()
 		for i := range cc.list {
 			cc.list[i].ETag = `"` + cc.list[i].ETag + `"`
+		}
+	case x < 96:
+		// the right ETags with white space around them (a pretty-printed request document): refusing is fine,
+		// accepting too - but then the object must be the one these parts make, with their S3 multipart ETag
+		cc.variant, cc.list = "padded-etags", u.bestValid()
+		pads := [][2]string{{"\n      ", "\n    "}, {" ", ""}, {"", " "}, {"\t", "\t"}, {"", "\r\n"}, {` "`, `" `}}
+		for i := range cc.list {
+			if i == 0 || r.Intn(2) == 0 {
+				pd := pads[r.Intn(len(pads))]
+				cc.list[i].ETag = pd[0] + cc.list[i].ETag + pd[1]
+			}
 		}
 	default:
 		cc.variant, cc.list = "best-valid", u.bestValid()
@@ -1023,8 +1034,8 @@ func (p *prog) doComplete(u *upload, cc completeCase) {
 	}
 	if !accepted {
 		if len(faults) == 0 && taint == "" {
-			if cc.variant == "quoted-etags" {
-				p.c.Observe("Complete with quoted ETags refused (over-strict): " + resp.String())
+			if cc.variant == "quoted-etags" || cc.variant == "padded-etags" {
+				p.c.Observe("Complete with " + cc.variant + " refused (over-strict): " + resp.String())
 			} else {
 				p.c.Observe("valid Complete refused (over-denial): " + resp.String())
 			}
@@ -1103,6 +1114,20 @@ func (p *prog) finalize() {
 		for _, d := range p.deadUploads() {
 			if d.key == u.key && d.state == "completed" {
 				sib = "after-sibling-completed"
+			}
+		}
+		if p.r.Intn(3) == 0 {
+			// first with white space around the (right) ETags: refused or accepted, see buildComplete
+			pc := completeCase{variant: "padded-etags", list: u.bestValid(), declKind: sib}
+			for i := range pc.list {
+				pc.list[i].ETag = []string{"\n      ", " ", "\t", ""}[p.r.Intn(4)] + pc.list[i].ETag + []string{"\n    ", " ", "\r\n"}[p.r.Intn(3)]
+			}
+			p.doComplete(u, pc)
+			if p.dead {
+				return
+			}
+			if u.state == "completed" {
+				continue
 			}
 		}
 		cc := completeCase{variant: "final", list: u.bestValid(), declKind: sib}
